@@ -82,7 +82,15 @@ for _l in (1, 2, 3, 4):
           defines=['CASE_FLAGS=0x%x' % _fl, 'CASE_LEN=%d' % _l], props=('C05', 'C10', 'C20'), cost=10, tier='quick' if _f in (0, 5) else 'thorough')
         R('writeRawValue_bcd_f%02x_len%d' % (_fl, _l), 'h_writeRawValue_b2', None, unwind=5, unwindset={'vsym_resize.0': SS_CAP + 1},
           defines=['CASE_FLAGS=0x%x' % _fl, 'CASE_LEN=%d' % _l], props=('C06', 'C10', 'C20'), cost=40, tier='quick' if _f in (0, 5) else 'thorough')
-R('parseInput', 'h_parseInput', 'NDT_parseInput', ['NDT_checkValueRange'], props=('C07', 'C12', 'C20'), cost=30)
+for _c, _n in ((0, 'int'), (3, 'exp')):
+    R('parseInput_' + _n, 'h_parseInput', 'NDT_parseInput', ['NDT_checkValueRange'], defines=['CASE_PI=%d' % _c], props=('C07', 'C12', 'C20'), cost=100)
+    R('parseInput_b2_' + _n, 'h_parseInput_b2', None, defines=['CASE_PI=%d' % _c], props=('C07', 'C12', 'C20'), cost=100, tier='thorough')
+# fixed point: one run per divisor of the property's quantifier {built-in 2,16,256,1000; +-10^k}; the floating point
+# multiplication/division by a symbolic divisor does not finish, a concrete divisor does (harness-enforced, B2)
+_QUICK_DIVS = (10, 256)
+for _d in [2, 16, 256] + [10 ** k for k in range(1, 10)] + [-(10 ** k) for k in range(1, 10)]:
+    R('parseInput_fix_div%s' % str(_d).replace('-', 'm'), 'h_parseInput_b2', None, defines=['CASE_PI=%d' % (1 if _d > 0 else 2), 'CASE_DIV=%d' % _d],
+      props=('C07', 'C12', 'C20'), cost=200, tier='quick' if _d in _QUICK_DIVS else 'thorough')
 for _b in (0, 1):
     for _l in (1, 2, 3, 4):
         R('roundtrip_bcd%d_len%d' % (_b, _l), 'h_roundtrip', None, defines=['CASE_BCD=%d' % _b, 'CASE_LEN=%d' % _l], unwind=5, props=('C06',), cost=10)
